@@ -217,9 +217,16 @@ func checkC02(c *Ctx) {
 		if op.Method != "Delete" {
 			continue
 		}
-		sfn, sat, _ := m.stopFrame(op.Call)
-		clear := m.clearPoint(sfn, sat)
-		c.check(clear != nil, "R3", "claim cleared before Delete in "+shortFn(op.Fn), op.Call, "claim Store(false) (or a call of a function that always clears it) dominates the Delete: %v", clear != nil)
+		for _, fr := range m.opFrames(op.Call) {
+			if !fr.Stop {
+				// the removal of an unclaimed own write (C01-R6): the claim was refused, there is none to clear
+				if ok, _ := m.discardsOwnWrite(op, fr); ok {
+					continue
+				}
+			}
+			clear := m.clearPoint(fr.Root, fr.At)
+			c.check(clear != nil, "R3", "claim cleared before Delete in "+shortFn(op.Fn)+" via "+shortFn(fr.Root), op.Call, "claim Store(false) (or a call of a function that always clears it) dominates the Delete: %v", clear != nil)
+		}
 	}
 }
 
